@@ -182,7 +182,11 @@ def build(d):
                          PointPixelRegion, PolygonPixelRegion, RectangleAnnulusPixelRegion,
                          RectanglePixelRegion, RegularPolygonPixelRegion, TextPixelRegion)
     k = d['kind']
-    P = lambda p: PixCoord(p[0], p[1])
+    if d.get('c_int'):
+        # integer-typed centre (as a user writing PixCoord(3, 4) gets)
+        P = lambda p: PixCoord(int(p[0]), int(p[1]))
+    else:
+        P = lambda p: PixCoord(p[0], p[1])
     A = lambda a: a[0] * u.Unit(a[1])
     m = _meta(d)
     if k == 'circle':
